@@ -97,6 +97,29 @@ def _feature_mismatch(which, delta):
     return make
 
 
+def _too_few_rows(which):
+    """a batch with fewer rows than clusters: k-means rejects it from inside training"""
+    def make(rs, cfg, sh):
+        b = _batch(rs, cfg, sh, n=1)
+        d, r, X = np.asarray(b["d"]), np.asarray(b["r"], dtype=float), np.asarray(b["X"], dtype=float)
+        return "%s with 1 row for %d clusters" % (which, cfg["np"]["n_clusters"]), (lambda m: getattr(m, which)(d, r, X))
+    return make
+
+
+def _singular_update(which):
+    """l2_lambda = 0: the newest arm (no data yet) gets a single row with >= 2 features -> singular normal matrix, while
+    arms earlier in the arm list receive ordinary rows in the same batch"""
+    def make(rs, cfg, sh):
+        target = sh.arms[-1]
+        others = [a for a in sh.arms if a != target] or [target]
+        n = int(rs.integers(3, 7))
+        b = _batch(rs, cfg, sh, n=n)
+        b["d"] = [others[int(i)] for i in rs.integers(0, len(others), n - 1)] + [target]
+        d, r, X = np.asarray(b["d"]), np.asarray(b["r"], dtype=float), np.asarray(b["X"], dtype=float)
+        return "%s with one row for the data-less arm %r (l2_lambda=0)" % (which, target), (lambda m: getattr(m, which)(d, r, X))
+    return make
+
+
 def _ragged_contexts(which):
     def make(rs, cfg, sh):
         b = _batch(rs, cfg, sh, n=3)
@@ -177,6 +200,16 @@ def catalogue():
     cat.append(("partial_fit:more_features", "inside", lambda cfg, sh: gen.is_ctx(cfg) and sh.fitted, _feature_mismatch("partial_fit", +1)))
     cat.append(("partial_fit:fewer_features", "inside", lambda cfg, sh: gen.is_ctx(cfg) and sh.fitted and sh.nf > 1,
                 _feature_mismatch("partial_fit", -1)))
+    is_clusters = lambda cfg, sh: cfg["np"]["kind"] == "clusters"  # noqa: E731
+    cat.append(("fit:fewer_rows_than_clusters", "inside", is_clusters, _too_few_rows("fit")))
+    cat.append(("partial_fit:fewer_rows_than_clusters_first_call", "inside", lambda cfg, sh: is_clusters(cfg, sh) and not sh.fitted,
+                _too_few_rows("partial_fit")))
+    cat.append(("partial_fit:singular_l2_zero", "inside",
+                lambda cfg, sh: cfg["np"]["kind"] == "none" and cfg["lp"]["kind"] in ("lingreedy", "linucb") and sh.fitted
+                and sh.nf >= 2 and len(sh.arms) >= 2 and cfg["lp"].get("l2") == 0.0, _singular_update("partial_fit")))
+    cat.append(("fit:singular_l2_zero", "inside",
+                lambda cfg, sh: cfg["np"]["kind"] == "none" and cfg["lp"]["kind"] in ("lingreedy", "linucb") and sh.fitted
+                and sh.nf >= 2 and len(sh.arms) >= 2 and cfg["lp"].get("l2") == 0.0, _singular_update("fit")))
     cat += [
         ("add_arm:duplicate", "facade", always, _add_arm(lambda rs, cfg, sh: gen.pick(rs, sh.arms))),
         ("add_arm:none", "facade", always, _add_arm(lambda rs, cfg, sh: None)),
